@@ -296,3 +296,37 @@ def read_jac(text: str, macros, kind: str) -> dict:
                 continue
             put((row, col), expr)
     return out
+
+
+GUARD = re.compile(r"^\s*Tgas\s*(>=|<=|>|<)\s*([-+0-9.eE]+)\s*(?:&&\s*Tgas\s*(>=|<=|>|<)\s*([-+0-9.eE]+)\s*)?$")
+
+
+def read_rates(text: str, sym: str = "k", begin: str = "EvalRates", end: str = "EvalHeatingRates") -> list[dict]:
+    """statements of one Eval*Rates function: [{"i": index, "guard": None | {"lo","lo_op","hi","hi_op"}, "expr": text}]"""
+    text = strip_comments(text)
+    a = text.find(begin + "(")
+    b = text.find(end + "(", a + 1) if end else -1
+    body = text[a:b if b > 0 else None]
+    out = []
+    pat = re.compile(r"(?:if\s*\((?P<cond>[^;{}]*)\)\s*\{\s*)?(?<![\w.])" + re.escape(sym) +
+                     r"\s*\[\s*(?P<i>\d+)\s*\]\s*=(?!=)(?P<expr>[^;]*);(?P<close>\s*\})?", re.S)
+    for m in pat.finditer(body):
+        g = None
+        if m.group("cond") is not None:
+            if not m.group("close"):
+                raise ReadError(f"guarded assignment of {sym}[{m.group('i')}] is not closed by '}}'")
+            gm = GUARD.match(" ".join(m.group("cond").split()))
+            if not gm:
+                raise ReadError(f"unreadable temperature guard {m.group('cond')!r}")
+            g = {}
+            for op, val in ((gm.group(1), gm.group(2)), (gm.group(3), gm.group(4))):
+                if op is None:
+                    continue
+                side = "lo" if op in (">=", ">") else "hi"
+                if side in g:
+                    raise ReadError(f"two bounds on the same side in guard {m.group('cond')!r}")
+                g[side], g[side + "_op"] = float(val), op
+        elif m.group("close"):
+            raise ReadError(f"stray '}}' after {sym}[{m.group('i')}]")
+        out.append({"i": int(m.group("i")), "guard": g, "expr": " ".join(m.group("expr").split())})
+    return out
